@@ -218,3 +218,89 @@ example : (isoChildren asciiUpper 1 false [] ["ab.txt".toList, "AB.TXT".toList])
     [some "AB.TXT;1".toList, some "AB000.TXT;1".toList] := by decide +kernel
 
 end Pycdlib.Tools
+
+namespace Pycdlib.Tools
+open Pycdlib
+
+theorem firstFree_is_candidate (ch : List (List Char)) (d : Bool) (pre ext : List Char) (fuel n : Nat) (t : List Char)
+    (h : firstFree ch d pre ext fuel n = some t) : ∃ k, n ≤ k ∧ k < n + fuel ∧ t = candidate d pre ext k := by
+  induction fuel generalizing n with
+  | zero => simp [firstFree] at h
+  | succ f ih =>
+    unfold firstFree at h
+    split at h
+    · obtain ⟨k, h1, h2, h3⟩ := ih _ h
+      exact ⟨k, by omega, by omega, h3⟩
+    · cases h; exact ⟨n, Nat.le_refl _, by omega, rfl⟩
+
+/-- **C20 (every identifier the tool hands out is legal)**: at interchange levels 1-3, whatever the source name (non-empty),
+whatever the siblings already present and whether or not the name collides, the identifier `build_iso_path` returns is
+accepted by the library — as a directory identifier for directories, as a file identifier for files. -/
+theorem isoChild_legal (upper : Upper) (hup : ∀ c, upper c ≠ []) (ch : List (List Char)) (name : List Char)
+    (hn : name ≠ []) (lvl : Nat) (hl : 1 ≤ lvl ∧ lvl ≤ 3) (d : Bool) (t : List Char) (ch' : List (List Char))
+    (h : isoChild upper ch name lvl d = (some t, ch')) :
+    (if d then checkIsoDirectory lvl (asciiBytes t) else checkIsoFilename lvl (asciiBytes t)) = .ok () := by
+  have h4 : lvl ≠ 4 := by omega
+  unfold isoChild at h
+  cases d with
+  | true =>
+    simp only [if_true, Bool.true_or] at h ⊢
+    split at h
+    · cases hff : firstFree ch true (List.take 5 (mangleDir upper name lvl)) [] 1000 0 with
+      | none => simp [hff] at h
+      | some t' =>
+        simp only [hff, Prod.mk.injEq, Option.some.injEq] at h
+        obtain ⟨k, _, hk, rfl⟩ := firstFree_is_candidate _ _ _ _ _ _ _ hff
+        rw [← h.1]
+        exact collision_dir_legal upper name lvl hl k (by omega)
+    · simp only [Prod.mk.injEq, Option.some.injEq] at h
+      rw [← h.1]
+      exact mangle_dir_legal upper hup name hn lvl hl
+  | false =>
+    obtain ⟨b, e, hm, _, _, _, _, _⟩ := mangleFile_shape upper hup name hn lvl h4
+    have hext : (mangleFile upper name lvl).2 ≠ [] := by rw [hm]; simp
+    simp only [Bool.false_eq_true, if_false, Bool.false_or, decide_eq_true_eq, hext] at h ⊢
+    split at h
+    · cases hff : firstFree ch false (List.take 5 (mangleFile upper name lvl).1) (mangleFile upper name lvl).2 1000 0 with
+      | none => simp [hff] at h
+      | some t' =>
+        simp only [hff, Prod.mk.injEq, Option.some.injEq] at h
+        obtain ⟨k, _, hk, rfl⟩ := firstFree_is_candidate _ _ _ _ _ _ _ hff
+        rw [← h.1]
+        exact collision_file_legal upper hup name hn lvl hl k (by omega)
+    · simp only [Prod.mk.injEq, Option.some.injEq] at h
+      rw [← h.1]
+      have := mangle_file_legal upper hup name hn lvl hl
+      unfold mangledFileIdent at this
+      exact this
+
+end Pycdlib.Tools
+
+namespace Pycdlib.Tools
+open Pycdlib
+
+/-- the whole directory: every identifier handed out is legal (and, by `isoChildren_nodup`, they are pairwise distinct) -/
+theorem isoChildren_legal (upper : Upper) (hup : ∀ c, upper c ≠ []) (lvl : Nat) (hl : 1 ≤ lvl ∧ lvl ≤ 3) (d : Bool)
+    (names : List (List Char)) (hn : ∀ n ∈ names, n ≠ []) (ch : List (List Char)) :
+    ∀ t ∈ (isoChildren upper lvl d ch names).1.filterMap id,
+      (if d then checkIsoDirectory lvl (asciiBytes t) else checkIsoFilename lvl (asciiBytes t)) = .ok () := by
+  induction names generalizing ch with
+  | nil => intro t ht; simp [isoChildren] at ht
+  | cons n ns ih =>
+    intro t ht
+    simp only [isoChildren] at ht
+    cases hc : isoChild upper ch n lvl d with
+    | mk r ch1 =>
+      rw [hc] at ht
+      simp only at ht
+      cases r with
+      | none =>
+        simp only [List.filterMap_cons, id] at ht
+        exact ih (fun m hm => hn m (List.mem_cons_of_mem _ hm)) ch1 t ht
+      | some t0 =>
+        simp only [List.filterMap_cons, id, List.mem_cons] at ht
+        rcases ht with rfl | ht
+        · exact isoChild_legal upper hup ch n (hn n List.mem_cons_self) lvl hl d _ ch1 hc
+        · exact ih (fun m hm => hn m (List.mem_cons_of_mem _ hm)) ch1 t ht
+
+end Pycdlib.Tools
